@@ -256,7 +256,7 @@ def run(ctx):
     # ---- P2P
     with open(os.path.join(ctx.rundir, "MC_P2P_run.cfg"), "w") as f:
         f.write(P2PCFG.format(depth=4 if ctx.quick else 6))
-    res = core.run_tlc(ctx, "MC_P2P", "MC_P2P_run.cfg", timeout=1500)
+    res = core.run_tlc(ctx, "MC_P2P", "MC_P2P_run.cfg", timeout=3000, workers=1)
     if res.violated:
         ctx.note("design_counterexample_p2p", res.violated)
     edges = core.parse_printed_json(res, tag="EDGE")
@@ -305,7 +305,7 @@ def run(ctx):
     # ---- RDAC
     with open(os.path.join(ctx.rundir, "MC_RDAC_run.cfg"), "w") as f:
         f.write(RDACCFG.format(depth=3 if ctx.quick else 5))
-    res = core.run_tlc(ctx, "MC_RDAC", "MC_RDAC_run.cfg", timeout=1500)
+    res = core.run_tlc(ctx, "MC_RDAC", "MC_RDAC_run.cfg", timeout=3000, workers=1)
     if res.violated:
         ctx.note("design_counterexample_rdac", res.violated)
     edges = core.parse_printed_json(res, tag="EDGE")
